@@ -403,6 +403,32 @@ func checkC16File(c C16FileCase) error {
 			}
 		}
 	}
+	// names that differ only in a path separator versus another character are different templates
+	if !strings.Contains(c.Name, "/") {
+		dir3, err := os.MkdirTemp(workDir(), "c16names-")
+		if err != nil {
+			return fmt.Errorf("harness: %v", err)
+		}
+		defer os.RemoveAll(dir3)
+		os.MkdirAll(filepath.Join(dir3, "sub"), 0o755)
+		pair := map[string]string{"sub/" + c.Name: "NESTED{{ x }}", "sub_" + c.Name: "FLAT{{ x }}", "sub-" + c.Name: "DASH{{ x }}", "sub." + c.Name: "DOT{{ x }}"}
+		eN := newEngine(pair)
+		cl3 := twig.NewCompiledLoader(dir3)
+		for _, n := range sortedTemplateNames(pair) {
+			if r := render(eN, n, map[string]interface{}{"x": "X"}); r.Failed() {
+				return fmt.Errorf("harness: %v", r)
+			}
+			if r := guard(func() (string, error) { return "", cl3.SaveCompiled(eN, n) }); r.Failed() {
+				return fmt.Errorf("SaveCompiled(%q) failed: %v", n, r)
+			}
+		}
+		for n, want := range pair {
+			var got string
+			if r := guard(func() (string, error) { s, err := twig.NewCompiledLoader(dir3).Load(n); got = s; return "", err }); r.Failed() || got != want {
+				return fmt.Errorf("compiled files of names that differ only in a separator: Load(%q) gives %s (%v), want %s", n, q(got), r, q(want))
+			}
+		}
+	}
 	// LoadAll on a fresh engine
 	eB := twig.New()
 	if r := guard(func() (string, error) { return "", twig.NewCompiledLoader(dir).LoadAll(eB) }); r.Failed() {
